@@ -14,15 +14,19 @@ TITLE = 'Batch conversion isolates bad files and is independent of job schedulin
 NATIVE = 'plain'
 RULE = ('A case is one directory (valid sources of the converter under test from the independent generators, damaged variants: '
         'truncations, bit flips, header damage, word/number overwrites, splices, empty files, and foreign formats; bad files placed '
-        'first/last/biggest/smallest by name and size) converted by the real batch functions in a child process: sequentially, with '
-        'jobs in {1,2,3,4,8,16} worker processes under seeded injected delays, and file by file.  Distinct by directory content; '
+        'first/last/biggest/smallest by name and size; names that are prefixes of one another, dotted, glob / format patterns, '
+        'upper-case or missing extensions, nested directories holding the same file name twice) converted by the real batch functions in a '
+        'child process: sequentially, with worker counts drawn from every band of 1..16 (per directory one of 1-3, one of 4-8, one of 9-16; '
+        'thorough: 1,2,3,4,8,16 plus one other) under seeded injected delays, and file by file.  Distinct by directory content; '
         'non-trivial = >= 2 valid and >= 2 damaged files and a multi-process run in which two tasks overlapped in time.  One shard per '
         'converter (quick: RP66V1 only) also converts one directory of more than a thousand small files (byte-identical copies of three '
         'valid sources under distinct names, four damaged files among them) sequentially, with one and with eight workers: every copy must '
         'convert like the first copy of its source and the three modes must agree.')
 ASSUMPTIONS = [
     'results are compared without the time field; output files without the CREA. (creation time) line, as the property allows',
-    'file names in a directory have distinct stems (the output name is derived from the stem); same-stem inputs are not generated',
+    'two inputs of one directory that differ in the extension only (WELL.dlis, WELL.DLIS) are generated for 12 % of the RP66V1 directories: the '
+    'RP66V1 output name drops the extension, so they write the same LAS files (known finding F28, classified by the colliding pair); the '
+    'same name in two different directories of a tree is generated too',
     'a damaged file may legitimately convert, fail or be ignored: only mode-independence, no abort and no effect on other files are asserted for it',
     'schedules are those the OS produces under the injected per-file delays (0..30 ms before and after each conversion); their number is reported, not enumerated',
     'a batch run that hits the wall-clock watchdog makes the run inconclusive, never violated',
@@ -136,8 +140,14 @@ def run_shard(ctx, p):
     rec, rng = ctx.rec, ctx.rng
     tmp_root = os.environ['VERIF_SHARD_TMP']
     conv = p['converter']
-    jobs_list = JOBS[ctx.tier]
     for d in range(p['dirs']):
+        # "every worker count 1..16": the fixed list of the tier, and per directory one count drawn from each of the bands below
+        # (quick: the bands only).  One worker is a pool that runs the files biggest-first in a single process: another order of
+        # the same per-process state than the sequential driver's.
+        bands = [rng.choice([1, 2, 3]), rng.choice([4, 5, 6, 7, 8]), rng.choice([9, 10, 11, 12, 13, 14, 15, 16])]
+        jobs_list = sorted(set(bands)) if ctx.tier == 'quick' else sorted(set(JOBS[ctx.tier]) | {rng.choice([5, 6, 7, 9, 10, 11, 12, 13, 14, 15])})
+        for j in jobs_list:
+            rec.cls('jobs:%d' % j)
         case = batchdirs.make_directory(rng, conv, ctx.tier)
         if case is None:
             rec.inconclusive_because('no source generator for converter %s' % conv)
@@ -198,7 +208,7 @@ def run_shard(ctx, p):
             status, res, events, wall = run_child(tmp, spec)
             rec.add('batch_runs', 1)
             rec.maxi('max_batch_wall_s', round(wall, 2))
-            w = {'converter': conv, 'mode': tag, 'files': {n: kinds[n] for n in names}, 'options': opts}
+            w = {'converter': conv, 'mode': tag, 'files': {n: kinds[n] for n in names}, 'options': opts, 'same_stem': case.get('same_stem') or []}
             if status == 'watchdog':
                 rec.inconclusive_because('batch run %s of converter %s hit the %ds wall-clock watchdog (files %s)' % (tag, conv, CHILD_TIMEOUT, kinds))
                 continue
@@ -259,7 +269,8 @@ def run_shard(ctx, p):
                     a, b = ref['results'].get(n), ob['results'].get(n)
                     if a != b:
                         rec.violation('results_mode_independent', 'result-differs', '%s: result of %s (%s) differs between file-alone and %s: %s vs %s' % (conv, n, kinds[n], tag, a, b),
-                                      {'converter': conv, 'file': n, 'kind': kinds[n], 'alone': a, 'other_mode': tag, 'other': b, 'files': kinds, 'options': opts})
+                                      {'converter': conv, 'file': n, 'kind': kinds[n], 'alone': a, 'other_mode': tag, 'other': b, 'files': kinds, 'options': opts,
+                                       'same_stem': case.get('same_stem') or []})
                         break
                 rec.mon('outputs_mode_independent')
                 if ref['tree'] != ob['tree']:
@@ -267,7 +278,8 @@ def run_shard(ctx, p):
                     only_b = sorted(set(ob['tree']) - set(ref['tree']))
                     diff = sorted(k for k in set(ref['tree']) & set(ob['tree']) if ref['tree'][k] != ob['tree'][k])
                     rec.violation('outputs_mode_independent', 'tree-differs', '%s: output tree differs between file-alone and %s: only-alone %s only-%s %s content-differs %s' % (conv, tag, only_a[:4], tag, only_b[:4], diff[:4]),
-                                  {'converter': conv, 'other_mode': tag, 'only_alone': only_a, 'only_other': only_b, 'content_differs': diff, 'files': kinds, 'options': opts})
+                                  {'converter': conv, 'other_mode': tag, 'only_alone': only_a, 'only_other': only_b, 'content_differs': diff, 'files': kinds, 'options': opts,
+                                   'same_stem': case.get('same_stem') or []})
             # ---- valid files converted
             for f in case['files']:
                 if f['kind'].startswith('valid:' + conv):
@@ -397,6 +409,36 @@ def bulk_directory(ctx, conv, nfiles):
                 conv, tag, only_a[:4], tag, only_b[:4], dif[:4]), {'converter': conv, 'other_mode': tag, 'only_seq': only_a[:50], 'only_other': only_b[:50], 'content_differs': dif[:50], 'options': opts})
     rec.case('bulk:%s:%d:%s' % (conv, nfiles, [len(v.data) for v in srcs]), len(observed) == 3, classes=['converter:' + conv, 'directory:bulk-%d-files' % nfiles])
     shutil.rmtree(tmp, ignore_errors=True)
+
+
+def _same_stem_prefixes(w):
+    """Output path prefixes (directory + stem + '_') of the input pairs that differ in their extension only."""
+    out = []
+    for pair in w.get('same_stem') or []:
+        stems = {os.path.splitext(n)[0] for n in pair}
+        if len(pair) == 2 and len(stems) == 1:
+            out.append((sorted(pair), stems.pop() + '_'))
+    return out
+
+
+@classifier('c12_rp66v1_same_stem_one_output')
+def _c12_same_stem(v):
+    """RP66V1 las_file_name() drops the input extension: WELL.dlis and WELL.DLIS in one directory write the same LAS files."""
+    w = v.get('witness') or {}
+    pre = _same_stem_prefixes(w)
+    if w.get('converter') != 'rp66v1' or not pre:
+        return False
+    if v['monitor'] == 'exactly_once_output' and v['kind'] == 'two-writers':
+        return any(sorted(w.get('tasks') or []) == pair for pair, _ in pre)
+    if v['monitor'] == 'outputs_mode_independent' and v['kind'] == 'tree-differs':
+        paths = (w.get('only_alone') or []) + (w.get('only_other') or []) + (w.get('content_differs') or [])
+        return bool(paths) and all(any(p.startswith(px) for _, px in pre) for p in paths)
+    if v['monitor'] == 'results_mode_independent' and v['kind'] == 'result-differs':
+        # size_output is measured on the shared output files, which the other input of the pair may have rewritten meanwhile
+        a, b = w.get('alone') or {}, w.get('other') or {}
+        return (any(w.get('file') in pair for pair, _ in pre) and isinstance(a, dict) and isinstance(b, dict)
+                and {k for k in set(a) | set(b) if a.get(k) != b.get(k)} == {'size_output'})
+    return False
 
 
 @classifier('c12_lis_log_pass_without_frames')
